@@ -169,6 +169,30 @@ func checkC01(f forest) *core.Failure {
 		fl.Msg += "\n" + fmt.Sprint(w.Texts())
 		return fl
 	}
+	// a later run issues further certificates under issuers that are now read back from disk
+	w2 := cloneWorld(*w)
+	n := len(w.Ents)
+	for i := 0; i < n && i < 3; i++ {
+		iss := &w.Ents[(i*2+1)%n]
+		if f.Imported[iss.EffAlias()] == "csr" {
+			continue
+		}
+		leaf := core.Entity{File: fmt.Sprintf("later/added%d.yaml", i), Subject: []core.RDN{{Key: "CN", Value: fmt.Sprintf("Added later %d", i)}}, Issuer: iss.EffAlias(),
+			SigAlg: fittingSigAlgs(keyKind(effKeyAlg(iss)))[i%4], Extensions: []core.Extension{{Kind: core.KAKI, HasContent: true, AKI: "hash"}}}
+		w2.Ents = append(w2.Ents, leaf)
+		d.Put(leaf.File, leaf.Render())
+	}
+	res2 := core.Run(d, core.FlagDefault)
+	if res2.Panic != "" {
+		return core.Failf("C01/panic", "gopki panicked in the second run: %s", res2.Panic)
+	}
+	if !res2.OK() {
+		return core.Failf("C01/second-run-failed", "adding leaves under existing issuers failed: %s\n%v", res2.String(), w2.Texts())
+	}
+	if fl := chainCheck("C01", &w2, d, true, false); fl != nil {
+		fl.Msg = "after adding leaves in a second run: " + fl.Msg + "\n" + fmt.Sprint(w2.Texts())
+		return fl
+	}
 	return nil
 }
 
